@@ -12,7 +12,8 @@ def S (s : String) : Str := s.toList
 
 /-- errors no Retry / Catch may intercept -/
 def unrecoverable (e : Str) : Bool :=
-  e = S "States.Runtime" || e = S "States.ExecutionTimeout" || e = S "Task.Terminated"
+  e = S "States.Runtime" || e = S "States.ExecutionTimeout" || e = S "Task.Terminated" ||
+  e = S "States.ExecutionHistoryLimitExceeded"
 
 def strList : Json → List Str
   | .arr xs => xs.filterMap (fun j => match j with | .str s => some s | _ => none)
